@@ -125,9 +125,25 @@ class KeyRing:
         sk = self.rng.randrange(1, R.N)
         return sk, R.pubkey_xonly(sk)[0]
 
-def build(rng, kind, nin=1, pos=0, ht=1, mutate=None, annex=None, extra_inputs_taproot=False):
-    """returns dict(spend_hex, fund_hex, valid(bool), kind, note) ; mutate names one corruption (or None)"""
+F_STRICTENC, F_DERSIG, F_LOW_S, F_NULLDUMMY, F_NULLFAIL, F_WPK, F_CONST, F_DUP = 1 << 1, 1 << 2, 1 << 3, 1 << 4, 1 << 14, 1 << 15, 1 << 16, 1 << 20
+
+def der_sig(r, s, pad=False):
+    def i(v, pad):
+        b = v.to_bytes((v.bit_length() + 8) // 8 or 1, "big")
+        if pad: b = b"\0" + b
+        return b"\x02" + bytes([len(b)]) + b
+    body = i(r, pad) + i(s, False)
+    return b"\x30" + bytes([len(body)]) + body
+
+def wit_size(stack):
+    return len(cs(len(stack))) + sum(len(cs(len(i))) + len(i) for i in stack)
+
+def build(rng, kind, nin=1, pos=0, ht=1, mutate=None, annex=None, enc=None, wn=3):
+    """returns dict(spend, fund (hex), valid (bool, when every flag bit of needs_off is off), needs_off, kind, note ...); mutate names one
+    corruption (or None); enc one encoding variant (highs, padded, uncompressed, nonnulldummy, keytype)"""
     K = KeyRing(rng)
+    needs_off = 0
+    compressed_ok = enc != "uncompressed"
     amount = rng.randrange(10000, 10**9)
     note = kind
     # locking script and the function producing the satisfaction once the spending tx exists
@@ -137,26 +153,33 @@ def build(rng, kind, nin=1, pos=0, ht=1, mutate=None, annex=None, extra_inputs_t
         sk, pk = K.new(); spk = push(pk) + b"\xac"
     elif kind == "multisig":        # bare 2-of-3
         ks = [K.new() for _ in range(3)]; spk = b"\x52" + b"".join(push(k[1]) for k in ks) + b"\x53\xae"
-    elif kind in ("p2sh", "p2sh-codesep"):
+    elif kind in ("p2sh", "p2sh-codesep", "p2sh-cs-unexec"):
         ks = [K.new() for _ in range(2)]
-        redeem = (b"\x51" + push(ks[0][1]) + push(ks[1][1]) + b"\x52\xae") if kind == "p2sh" else (b"\x51\xab\x75" + push(ks[0][1]) + b"\xac")
+        if kind == "p2sh": redeem = b"\x51" + push(ks[0][1]) + push(ks[1][1]) + b"\x52\xae"
+        elif kind == "p2sh-codesep": redeem = b"\x51\xab\x75" + push(ks[0][1]) + b"\xac"
+        else: redeem = b"\x00\x63\xab\x68" + push(ks[0][1]) + b"\xab\xac"        # one in an unexecuted branch, one executed last
         spk = bytes([0xa9, 20]) + h160(redeem) + b"\x87"
     elif kind in ("p2wpkh", "p2sh-p2wpkh"):
-        sk, pk = K.new(); prog = b"\x00\x14" + h160(pk)
+        sk, pk = K.new(compressed_ok); prog = b"\x00\x14" + h160(pk)
         spk = prog if kind == "p2wpkh" else bytes([0xa9, 20]) + h160(prog) + (b"\x87" if mutate != "notp2sh" else b"")
-    elif kind in ("p2wsh", "p2sh-p2wsh", "p2wsh-codesep"):
-        ks = [K.new() for _ in range(3)]
-        ws = (b"\x52" + b"".join(push(k[1]) for k in ks) + b"\x53\xae") if kind != "p2wsh-codesep" else (push(ks[0][1]) + b"\xad\xab" + push(ks[1][1]) + b"\xac")
+    elif kind in ("p2wsh", "p2sh-p2wsh", "p2wsh-codesep", "p2wsh-cs-unexec"):
+        ks = [K.new(compressed_ok) for _ in range(3)]
+        if kind == "p2wsh-codesep": ws = push(ks[0][1]) + b"\xad\xab" + push(ks[1][1]) + b"\xac"
+        elif kind == "p2wsh-cs-unexec": ws = b"\x00\x63\xab\x68" + push(ks[0][1]) + b"\xac"
+        else: ws = b"\x52" + b"".join(push(k[1]) for k in ks) + b"\x53\xae"
         prog = b"\x00\x20" + sha(ws)
         spk = prog if kind != "p2sh-p2wsh" else bytes([0xa9, 20]) + h160(prog) + (b"\x87" if mutate != "notp2sh" else b"\x87\x61")
     elif kind == "p2tr-key":
         isk = rng.randrange(1, R.N)
         q, par, p, _ = taproot_output(isk, [])
         spk = b"\x51\x20" + q
-    elif kind in ("p2tr-script", "p2tr-csa", "p2tr-codesep"):
+    elif kind in ("p2tr-script", "p2tr-csa", "p2tr-codesep", "p2tr-cs-unexec", "p2tr-weight", "p2tr-keytype"):
         isk = rng.randrange(1, R.N)
         lk = [K.new_x() for _ in range(3)]
-        if kind == "p2tr-script": leaves = [push(lk[0][1]) + b"\xac", b"\x51", push(lk[1][1]) + b"\xad\x51"]
+        if kind == "p2tr-cs-unexec": leaves = [b"\x00\x63\xab\x68" + push(lk[0][1]) + b"\xac"]
+        elif kind == "p2tr-weight": leaves = [(b"\x76" + push(lk[0][1]) + b"\xad") * wn + push(lk[0][1]) + b"\xac", b"\x51"]
+        elif kind == "p2tr-keytype": leaves = [push(lk[0][1] + b"\x01") + b"\xac"]          # 33-byte key: unknown key type, succeeds unless discouraged
+        elif kind == "p2tr-script": leaves = [push(lk[0][1]) + b"\xac", b"\x51", push(lk[1][1]) + b"\xad\x51"]
         elif kind == "p2tr-csa": leaves = [push(lk[0][1]) + b"\xac" + push(lk[1][1]) + b"\xba" + push(lk[2][1]) + b"\xba\x52\x87"]
         else: leaves = [b"\x51\x75\xab" + push(lk[0][1]) + b"\xad\xab" + push(lk[1][1]) + b"\xac", b"\x61"]
         q, par, p, leafinfo = taproot_output(isk, leaves)
@@ -175,11 +198,13 @@ def build(rng, kind, nin=1, pos=0, ht=1, mutate=None, annex=None, extra_inputs_t
     tx = Tx(rng.choice([1, 2]), vin, [(rng.randrange(1, amount), bytes([0x51, 0x20]) + bytes(rng.randrange(256) for _ in range(32))) for _ in range(nout)], rng.choice([0, 0, 500000]))
     amt_for_sig = amount + (1 if mutate == "amount" else 0)
     def ecdsa(sk, digest, hashtype):
-        s = R.ecdsa_sign(digest, sk) + bytes([hashtype])
+        r_, s_ = R.parse_der_lax(R.ecdsa_sign(digest, sk))
+        if enc == "highs": s_ = R.N - s_
+        s = der_sig(r_, s_, pad=(enc == "padded")) + bytes([hashtype])
         if mutate == "sigbyte":
             b = bytearray(s); b[10] ^= 1; s = bytes(b)
         return s
-    valid = mutate in (None, "single-oob")
+    valid = mutate in (None, "single-oob", "unsigned")
     finding = None
     def others_spent(a):
         # the outputs spent by the other inputs exist only in the signer's world: the debugger is given one funding transaction
@@ -190,27 +215,32 @@ def build(rng, kind, nin=1, pos=0, ht=1, mutate=None, annex=None, extra_inputs_t
         tx.vin[pos][2] = push(sig) + (push(pk) if kind == "p2pkh" else b"")
     elif kind == "multisig":
         d = legacy_digest(tx, pos, spk, ht)
-        order = [0, 2] if mutate != "sigorder" else [2, 0]
+        order = sorted(rng.sample(range(3), 2))
+        if mutate == "sigorder": order = order[::-1]
         sigs = [ecdsa(ks[i][0] if mutate != "wrongkey" else rng.randrange(1, R.N), d, ht) for i in order]
-        tx.vin[pos][2] = b"\x00" + b"".join(push(s) for s in sigs)
-    elif kind in ("p2sh", "p2sh-codesep"):
-        code = redeem if kind == "p2sh" else redeem[2:]       # after the executed OP_CODESEPARATOR
+        tx.vin[pos][2] = (b"\x51" if enc == "nonnulldummy" else b"\x00") + b"".join(push(s) for s in sigs)
+    elif kind in ("p2sh", "p2sh-codesep", "p2sh-cs-unexec"):
+        code = redeem if kind == "p2sh" else redeem[2:] if kind == "p2sh-codesep" else redeem[-1:]       # after the last executed OP_CODESEPARATOR
         d = legacy_digest(tx, pos, code, ht)
         sig = ecdsa(ks[0][0] if mutate != "wrongkey" else rng.randrange(1, R.N), d, ht)
         red = redeem if mutate != "scripthash" else redeem + b"\x61"
-        tx.vin[pos][2] = (b"\x00" if kind == "p2sh" else b"") + push(sig) + push(red)
+        dummy = b"\x51" if enc == "nonnulldummy" else b"\x00"
+        tx.vin[pos][2] = (dummy if kind == "p2sh" else b"") + push(sig) + push(red)
     elif kind in ("p2wpkh", "p2sh-p2wpkh"):
         code = bytes([0x76, 0xa9, 20]) + h160(pk) + bytes([0x88, 0xac])
         usk = sk if mutate != "wrongkey" else rng.randrange(1, R.N)
         sig = ecdsa(usk, bip143_digest(tx, pos, code, ht, amt_for_sig), ht)
         tx.wit[pos] = [sig, pk if mutate != "scripthash" else K.new()[1]]
         if kind == "p2sh-p2wpkh": tx.vin[pos][2] = push(prog) + (b"\x51" if mutate == "malleated" else b"")
-    elif kind in ("p2wsh", "p2sh-p2wsh", "p2wsh-codesep"):
-        if kind != "p2wsh-codesep":
+    elif kind in ("p2wsh", "p2sh-p2wsh", "p2wsh-codesep", "p2wsh-cs-unexec"):
+        if kind == "p2wsh-cs-unexec":
+            items = [ecdsa(ks[0][0] if mutate != "wrongkey" else rng.randrange(1, R.N), bip143_digest(tx, pos, ws, ht, amt_for_sig), ht)]
+        elif kind != "p2wsh-codesep":
             d = bip143_digest(tx, pos, ws, ht, amt_for_sig)
-            order = [0, 1] if mutate != "sigorder" else [1, 0]
+            order = sorted(rng.sample(range(3), 2))
+            if mutate == "sigorder": order = order[::-1]
             sigs = [ecdsa(ks[i][0] if mutate != "wrongkey" else rng.randrange(1, R.N), d, ht) for i in order]
-            items = [b""] + sigs
+            items = [b"\x01" if enc == "nonnulldummy" else b""] + sigs
         else:
             d1 = bip143_digest(tx, pos, ws, ht, amt_for_sig)                  # first check: whole script
             d2 = bip143_digest(tx, pos, ws[len(push(ks[0][1])) + 2:], ht, amt_for_sig)   # after the code separator
@@ -250,7 +280,11 @@ def build(rng, kind, nin=1, pos=0, ht=1, mutate=None, annex=None, extra_inputs_t
         if nin != 1:
             finding = "multi-input-taproot"
         if bip341_digest(tx, pos, ht, spent, 1, annex=annex, leaf_hash=lh) is None: valid = False
-        if kind == "p2tr-script":
+        if kind == "p2tr-cs-unexec": items = [ssig(lk[0][0])]
+        elif kind == "p2tr-weight": items = [ssig(lk[0][0])]
+        elif kind == "p2tr-keytype":
+            items = [b"\x01"]; needs_off |= F_DUP                  # any non-empty signature passes for an unknown key type
+        elif kind == "p2tr-script":
             items = [ssig(lk[0][0])] if li == 0 else [ssig(lk[1][0])]
         elif kind == "p2tr-csa":
             items = [ssig(lk[2][0]), b"", ssig(lk[0][0])]          # 2 of 3: keys 0 and 2 (stack: sig for key2 at bottom ... sig for key0 on top)
@@ -260,6 +294,43 @@ def build(rng, kind, nin=1, pos=0, ht=1, mutate=None, annex=None, extra_inputs_t
         if mutate == "extraitem": items = [b"\x01"] + items
         if mutate == "missingitem": items = items[1:]
         tx.wit[pos] = items + [script, control] + ([annex] if annex else [])
+        if kind == "p2tr-weight" and 50 * (wn + 1) > wit_size(tx.wit[pos]) + 50: valid = False; note += " (validation weight exhausted)"
+    ecdsa_kind = not kind.startswith("p2tr")
+    if ecdsa_kind:
+        if not (1 <= (ht & 0x7f) <= 3): needs_off |= F_STRICTENC
+        if enc == "highs": needs_off |= F_LOW_S
+        if enc == "padded": needs_off |= F_DERSIG | F_LOW_S | F_STRICTENC
+        if enc == "nonnulldummy" and kind in ("multisig", "p2sh", "p2wsh", "p2sh-p2wsh"): needs_off |= F_NULLDUMMY
+        if enc == "uncompressed" and (kind in ("p2wpkh", "p2sh-p2wpkh", "p2wsh", "p2sh-p2wsh", "p2wsh-codesep", "p2wsh-cs-unexec")): needs_off |= F_WPK
+        if kind in ("p2sh-codesep", "p2sh-cs-unexec"): needs_off |= F_CONST
+    # alterations of fields the signature does not commit to: the input stays valid
+    if mutate == "unsigned":
+        base, acp = ht & 0x1f, bool(ht & 0x80)
+        if kind.startswith("p2tr"): base, acp = (ht & 3 if ht else 1), ht >= 0x80
+        done = False
+        others = [i for i in range(nin) if i != pos]
+        if acp and others:
+            i = rng.choice(others); tx.vin[i][3] ^= 4; tx.vin[i][1] ^= 1; done = True
+        elif base == 2 and tx.vout:
+            tx.vout[rng.randrange(len(tx.vout))][0] += 7; done = True
+        elif base == 3 and len(tx.vout) > 1 and any(j != pos for j in range(len(tx.vout))):
+            j = rng.choice([j for j in range(len(tx.vout)) if j != pos]); tx.vout[j][0] += 7; done = True
+        elif base in (2, 3) and others and not kind.startswith("p2tr"):
+            i = rng.choice(others); tx.vin[i][3] ^= 4; done = True            # other inputs' sequences are not signed with NONE / SINGLE (legacy, BIP143)
+        elif ecdsa_kind and others and not tx.wit[rng.choice(others)]:
+            i = rng.choice(others); tx.vin[i][2] = b"\x51"; done = True          # other inputs' scriptSigs are never signed
+        if not done: note += " (nothing unsigned to alter)"
+    if mutate == "sat-bit":
+        # one bit of the satisfaction (scriptSig or a witness item of the spending input)
+        if tx.wit[pos] and (not tx.vin[pos][2] or rng.random() < 0.8):
+            cand = [i for i, it in enumerate(tx.wit[pos]) if it]
+            i = rng.choice(cand); b = bytearray(tx.wit[pos][i]); b[rng.randrange(len(b))] ^= 1 << rng.randrange(8); tx.wit[pos][i] = bytes(b)
+        else:
+            b = bytearray(tx.vin[pos][2]); b[rng.randrange(len(b))] ^= 1 << rng.randrange(8); tx.vin[pos][2] = bytes(b)
+        valid = False
+    # legacy SIGHASH_SINGLE without a matching output signs the constant 1: nothing of the transaction is committed to
+    if kind in ("p2pk", "p2pkh", "multisig", "p2sh", "p2sh-codesep", "p2sh-cs-unexec") and (ht & 0x1f) == 3 and pos >= len(tx.vout) and mutate in ("locktime", "sequence", "output"):
+        valid = True; note += " (SIGHASH_SINGLE bug: digest is 1)"
     # field alterations after signing
     if mutate == "output" and tx.vout:
         tx.vout[0][0] += 1
@@ -267,4 +338,4 @@ def build(rng, kind, nin=1, pos=0, ht=1, mutate=None, annex=None, extra_inputs_t
     if mutate == "locktime": tx.locktime += 1
     if mutate == "extraitem" and kind in ("p2wpkh", "p2sh-p2wpkh"): tx.wit[pos] = [b"\x01"] + tx.wit[pos]
     if mutate == "missingitem" and kind in ("p2wsh", "p2sh-p2wsh"): tx.wit[pos] = tx.wit[pos][1:]
-    return {"spend": tx.raw().hex(), "fund": fund.raw().hex(), "valid": valid, "kind": kind, "note": note, "mutate": mutate, "ht": ht, "pos": pos, "nin": nin, "finding": finding if valid else None}
+    return {"spend": tx.raw().hex(), "fund": fund.raw().hex(), "valid": valid, "kind": kind, "note": note, "mutate": mutate, "ht": ht, "pos": pos, "nin": nin, "finding": finding if valid else None, "needs_off": needs_off, "enc": enc}
